@@ -137,7 +137,7 @@ def build_app(seed):
         faults.append(type('Err%d' % i, (Fault,),
                            {'__namespace__': r.choice(nss)}))
     headers = []
-    for i in range(r.randint(0, 2)):
+    for i in range(r.randint(0, 3)):
         headers.append(type('Hdr%d' % i, (ComplexModel,), {
             '__namespace__': r.choice(nss),
             '_type_info': [('token', Unicode), ('seq', Integer)]}))
@@ -159,6 +159,11 @@ def build_app(seed):
             ns['__in_header__'] = r.choice(headers)
         if headers and r.random() < .4:
             ns['__out_header__'] = r.choice(headers)
+        # two or more headers are carried by one combined message
+        if len(headers) > 1 and r.random() < .4:
+            ns['__in_header__'] = tuple(r.sample(headers, 2))
+        if len(headers) > 1 and r.random() < .3:
+            ns['__out_header__'] = tuple(r.sample(headers, 2))
         for mi in range(r.randint(1, 4)):
             name = 'm%d_%d' % (si, mi)
             kw = {}
